@@ -83,6 +83,8 @@ func runSeed(seed uint64, i int) uint64 {
 
 var progress, curRun atomic.Int64
 
+const simrtRace = simrt.RaceBuild
+
 func TestWorker(t *testing.T) {
 	raw := os.Getenv("VERIF_WORKER")
 	if raw == "" {
